@@ -121,6 +121,13 @@ def run(ctx, report):
         OP_ASSOC = env['op_assoc'] = Evaluator({}).ev(hlp.assign_value('op_assoc'))
     except (NotConst, AnalysisError) as e:
         raise AnalysisError('expression_helper.op_assoc not evaluable: %s' % e)
+    # every module-level list / tuple of operator tokens (op_assoc, and whatever other named lists the guards use)
+    for st_ in hlp.tree.body:
+        if isinstance(st_, ast.Assign) and len(st_.targets) == 1 and isinstance(st_.targets[0], ast.Name) and isinstance(st_.value, (ast.List, ast.Tuple, ast.BinOp)):
+            try:
+                env.setdefault(st_.targets[0].id, Evaluator(dict(env)).ev(st_.value))
+            except NotConst:
+                pass
     ev = Evaluator(env)
     report.explanation = (
         'D1: in the constant-folding loop of the simplifier an abstract interpretation of list positions (args = [.., x_{n-2}, x_{n-1}], '
@@ -131,63 +138,7 @@ def run(ctx, report):
     report.not_decided = ('soundness of the side condition of each rewrite for all constants and widths (e.g. 2**shift >= mask), termination of the fixpoint loop `while e_new != e` -- these quantify over values.')
 
     R1 = report.rule('C05.D1', 'constant folding applies the named operator with operands in expression order', floor=7)
-    pops = []
-    for st in loop.body:
-        if isinstance(st, ast.Assign) and isinstance(st.targets[0], ast.Name) and u(st.value) == 'args.pop()':
-            pops.append(st.targets[0].id)
-    if len(pops) != 2:
-        raise AnalysisError('folding loop does not pop exactly two operands: %s' % pops)
-    right, left = pops[0], pops[1]      # first pop() = last element = right operand
-    n_branches = 0
-    for n in ast.walk(loop):
-        if isinstance(n, ast.If) and isinstance(n.test, ast.Compare) and u(n.test.left) == 'op' and len(n.test.ops) == 1 \
-                and isinstance(n.test.ops[0], ast.Eq) and isinstance(n.test.comparators[0], ast.Constant):
-            opstr = n.test.comparators[0].value
-            for s in n.body:
-                if isinstance(s, ast.Assign) and isinstance(s.value, ast.BinOp):
-                    n_branches += 1
-                    b = s.value
-                    inst = 'fold[%s]' % opstr
-                    key = '%s:fold:%s:%s' % (fn.name, opstr, norm(b))
-                    if opstr not in PYOP:
-                        raise AnalysisError('folded operator %r has no reference Python operator' % opstr)
-                    if type(b.op) is not PYOP[opstr]:
-                        R1.violation(inst, key, 'operator %r is folded with Python operator %s' % (opstr, type(b.op).__name__), where(hlp, s))
-                        continue
-                    l, r = u(b.left), u(b.right)
-                    want = ('%s.arg' % left, '%s.arg' % right)
-                    if (l, r) == want or (opstr in COMMUTATIVE and (r, l) == want):
-                        R1.ok(inst, sample='%s: %s  (left=%s, right=%s)' % (inst, norm(s), left, right))
-                    else:
-                        R1.violation(inst, key, 'non-commutative %r is folded as %s but the earlier (left) operand is %s and the later (right) is %s'
-                                     % (opstr, norm(b), left, right), where(hlp, s),
-                                     witness='expr_simp(ExprInt32(8) >> ExprInt32(1)) == 0' if opstr == '>>' else 'expr_simp(ExprInt32(1) << ExprInt32(4)) == 8')
-    # the guard of the loop must list exactly the operators that have a branch
-    guard = None
-    p = getattr(loop, '_parent', None)
-    if isinstance(p, ast.If) and isinstance(p.test, ast.Compare) and u(p.test.left) == 'op':
-        try:
-            guard = set(ev.ev(p.test.comparators[0]))
-        except NotConst:
-            guard = None
-    if guard is None:
-        raise AnalysisError('guard of the folding loop not evaluable')
-    branch_ops = set()
-    for n in ast.walk(loop):
-        if isinstance(n, ast.If) and isinstance(n.test, ast.Compare) and u(n.test.left) == 'op' and isinstance(n.test.comparators[0], ast.Constant):
-            branch_ops.add(n.test.comparators[0].value)
-    if guard == branch_ops:
-        R1.ok('fold-guard', sample='folding guard %s == branches' % sorted(guard))
-    else:
-        R1.violation('fold-guard', '%s:fold-guard:%s' % (fn.name, sorted(guard ^ branch_ops)),
-                     'operators %s enter the folding loop without a folding branch (stale value appended)' % sorted(guard - branch_ops)
-                     if guard - branch_ops else 'folding branches %s are unreachable' % sorted(branch_ops - guard), where(hlp, p))
-    # result width: the folded constant is rebuilt at the operands' size
-    rebuilt = [s for s in loop.body if isinstance(s, ast.Assign) and 'ExprInt(tab_size_int[' in u(s.value)]
-    if rebuilt and ('%s.get_size()' % left in u(rebuilt[0].value) or '%s.get_size()' % right in u(rebuilt[0].value)):
-        R1.ok('fold-width', sample=norm(rebuilt[0]))
-    else:
-        R1.violation('fold-width', '%s:fold-width' % fn.name, 'folded constant is not rebuilt at the operands\' width', where(hlp, loop))
+    fold_eval_rule(ctx, R1, hlp, fn, loop)
 
     R2 = report.rule('C05.D2', 'zero-drop rule is consistent with neutral elements and with the single-operand unwrap', floor=4)
     drop_ops = unwrap_ops = None
@@ -234,7 +185,7 @@ def run(ctx, report):
                      where(hlp, unwrap_node))
     else:
         R2.ok('unwrap', sample='unwrap list %s has no unary operator' % sorted(unwrap_ops))
-    report.analysed['fold_branches'] = n_branches
+    report.analysed['fold_branches'] = 'evaluated'
 
     # ---------------------------------------------------------------- D3 bit positions in merge_sliceto_slice
     R3 = report.rule('C05.D3', 'merging adjacent pieces of a Compose keeps every piece at its bit position', floor=7)
@@ -262,15 +213,7 @@ def run(ctx, report):
         else:
             R4.violation('mask-shift', 'rewrite:mask-shift:%s' % type(c.ops[0]).__name__, '((A & mask) >> shift) is rewritten to 0 under `%s`: for mask == 2**shift the bit A[shift] survives, '
                          'so the condition must be strict' % u(c), where(hlp, c), witness='expr_simp((A & 0x80000000) >> 31) == 0')
-    # constant shifts: a count >= the width must not be evaluated on unbounded integers
-    sh_br = [n for n in walk_no_nested(fold_loop) if isinstance(n, ast.If) and ("op == '<<'" in u(n.test) or "op == '>>'" in u(n.test) or "op in ['>>', '<<']" in u(n.test))]
-    bounded = any('i2.arg >= i1.get_size()' in u(n.test) or 'i2.arg >= i1.size' in u(n.test) for n in sh_br)
-    # the bounded branch must come before the plain shift branches in the if/elif chain
-    if bounded:
-        R4.ok('shift-fold-bound', sample='a constant shift by count >= width folds to 0 before the shift is computed')
-    else:
-        R4.violation('shift-fold-bound', 'rewrite:shift-fold:unbounded', 'constant folding of << / >> computes i1.arg << i2.arg for any count: the intermediate integer has up to 2**64 bits',
-                     where(hlp, fold_loop), witness='expr_simp(ExprInt64(1) << ExprInt64(2**63)) raises MemoryError')
+    # (constant shifts by a count >= the width: decided by the evaluated folding step, C05.D1 fold[<<]:bound)
     for n in hits:
         if 'args[1].arg >= args[0].get_size()' in u(n) :
             R4.ok('mask-shift-bound', sample='(A & m) >> s: s >= width is decided without computing 2**s')
@@ -434,6 +377,120 @@ def run(ctx, report):
     from .c15 import copy_visit_rule
     copy_visit_rule(ctx, R8, only='copy')
 
+    R9 = report.rule('C05.D9', 'the simplifier never modifies the expression it is given (shared with C13.D4)', floor=3)
+    from .c13 import input_untouched_rule
+    input_untouched_rule(ctx, R9)
+
+
+def fold_eval_rule(ctx, R1, hlp, fn, loop):
+    """The statement that folds two trailing constants (the guard `if op in ..:` around the loop, or the loop itself) is executed from the source on
+    model constants for every operator token and compared with the operator's meaning on 32-bit and 8-bit values: the left operand is the earlier one,
+    shifts are logical, a count of at least the width gives 0, the result has the operands' width.  Whether the operators are spelled as an if/elif chain
+    or looked up in a table does not matter."""
+    from ..consteval import Obj, Native, PyRaise
+    stmt = getattr(loop, '_parent', None)
+    if not isinstance(stmt, ast.If):
+        stmt = loop
+
+    class MInt(Obj):
+        def __init__(self, typed):
+            Obj.__init__(self, 'ExprInt')
+            size, val = typed if isinstance(typed, tuple) else (32, typed)
+            self.arg = val
+            self.size = size
+            self.get_size = Native(lambda: size)
+    scope = {'ExprInt': MInt, 'ExprOp': type('MOp', (Obj,), {}), 'tab_size_int': dict((w, Native(lambda v, w=w: (w, int(v) & ((1 << w) - 1)))) for w in (1, 8, 16, 32, 64))}
+    op_mod = Obj('operator')
+    for nm_, f_ in (('add', lambda a, b: a + b), ('sub', lambda a, b: a - b), ('mul', lambda a, b: a * b), ('xor', lambda a, b: a ^ b), ('and_', lambda a, b: a & b),
+                    ('or_', lambda a, b: a | b), ('rshift', lambda a, b: a >> b), ('lshift', lambda a, b: a << b)):
+        setattr(op_mod, nm_, Native(f_))
+    scope['operator'] = op_mod
+    for st_ in hlp.tree.body:
+        if isinstance(st_, ast.Assign) and len(st_.targets) == 1 and isinstance(st_.targets[0], ast.Name) and st_.targets[0].id not in scope:
+            try:
+                scope[st_.targets[0].id] = Evaluator(scope).ev(st_.value)
+            except (NotConst, PyRaise):
+                pass
+    for fname_, fnode_ in hlp.funcs.items():
+        scope.setdefault(fname_, fnode_)
+    REF = {'+': lambda a, b, w: (a + b) % (1 << w), '*': lambda a, b, w: (a * b) % (1 << w), '^': lambda a, b, w: a ^ b, '&': lambda a, b, w: a & b, '|': lambda a, b, w: a | b,
+           '>>': lambda a, b, w: (a >> b) if b < w else 0, '<<': lambda a, b, w: ((a << b) % (1 << w)) if b < w else 0}
+    VEC = {32: [(8, 1), (1, 4), (0xFFFFFFFF, 1), (5, 3), (0x80000000, 31), (3, 40), (0x12345678, 0x0F0F0F0F)], 8: [(0x81, 1), (0xFF, 0xFF), (3, 9), (0x10, 4)]}
+    n_folded = 0
+    for op in ('+', '*', '^', '&', '|', '>>', '<<', '-', 'a>>', '<<<', '>>>', 'parity', '==', '/', '%'):
+        inst = 'fold[%s]' % op
+        problems = []
+        folded_any = False
+        for w, vecs in VEC.items():
+            for a, b in vecs:
+                loc = {'op': op, 'args': [MInt((w, a)), MInt((w, b))], 'e': Obj('e')}
+                try:
+                    Evaluator(scope).exec_stmts([stmt], loc)
+                except PyRaise as e:
+                    problems.append('raises %s on %#x %s %#x' % (e.exc_name, a, op, b))
+                    continue
+                except NotConst as e:
+                    if str(e).startswith('name '):
+                        problems.append('%r enters the folding step, which then uses a value it never computed (%s)' % (op, e))
+                        folded_any = True
+                        break
+                    raise AnalysisError('the constant-folding statement of %s is outside the evaluable subset for %r: %s' % (fn.name, op, e))
+                out = loc['args']
+                if len(out) == 2:
+                    continue                    # not folded here
+                folded_any = True
+                if op not in REF:
+                    problems.append('%r is folded although it is no binary integer operator of the folding step' % op)
+                    break
+                if len(out) != 1 or not isinstance(out[0], MInt):
+                    problems.append('%#x %s %#x leaves %d operands' % (a, op, b, len(out)))
+                    continue
+                got, gw = out[0].arg, out[0].size
+                want = REF[op](a, b, w)
+                if gw != w:
+                    problems.append('%#x %s %#x (%d bits) folds to a constant of %d bits' % (a, op, b, w, gw))
+                elif got != want:
+                    problems.append('%#x %s %#x on %d bits folds to %#x, the operator gives %#x' % (a, op, b, w, got, want))
+        if op == '<<' and not problems:
+            # the count is bounded before Python shifts: a tracked integer records the largest count it is shifted by
+            seen_counts = []
+
+            class Tracked(int):
+                def __lshift__(self, other):
+                    seen_counts.append(int(other))
+                    return Tracked(int(self) << min(int(other), 4096))
+            big = MInt((32, 1))
+            big.arg = Tracked(1)
+            loc = {'op': op, 'args': [big, MInt((32, 100000))], 'e': Obj('e')}
+            scope_t = dict(scope)
+            op_t = Obj('operator')
+            for nm_ in ('add', 'sub', 'mul', 'xor', 'and_', 'or_', 'rshift'):
+                setattr(op_t, nm_, getattr(op_mod, nm_))
+            op_t.lshift = Native(lambda a, b: a << b)
+            scope_t['operator'] = op_t
+            for st_ in hlp.tree.body:
+                if isinstance(st_, ast.Assign) and len(st_.targets) == 1 and isinstance(st_.targets[0], ast.Name) and isinstance(st_.value, ast.Dict) and 'operator.' in u(st_.value):
+                    scope_t[st_.targets[0].id] = Evaluator(scope_t).ev(st_.value)
+            try:
+                Evaluator(scope_t).exec_stmts([stmt], loc)
+            except (NotConst, PyRaise) as e:
+                raise AnalysisError('the folding step is outside the evaluable subset on a large shift count: %s' % e)
+            if any(c >= 32 for c in seen_counts):
+                R1.violation('fold[<<]:bound', '%s:fold:<<:unbounded' % fn.name, 'constant folding of << computes value << count for any count (count = %d seen): the intermediate integer '
+                             'has as many bits as the count says' % max(seen_counts), where(hlp, stmt), witness='expr_simp(ExprOp("<<", ExprInt64(1), ExprInt64(1 << 63))) raises MemoryError')
+            else:
+                R1.ok('fold[<<]:bound', sample='a count of at least the width folds to 0 before Python shifts')
+        if op in REF and not folded_any:
+            R1.violation(inst, '%s:fold:%s:not-folded' % (fn.name, op), 'two constants under %r are not folded' % op, where(hlp, stmt))
+        elif problems:
+            R1.violation(inst, '%s:fold:%s' % (fn.name, op), 'constant folding of %r: %s' % (op, '; '.join(problems[:3])), where(hlp, stmt),
+                         witness='expr_simp(ExprInt32(8) >> ExprInt32(1))' if op == '>>' else None)
+        elif op in REF:
+            n_folded += 1
+            R1.ok(inst, sample='%s: folded as the operator defines it on %d operand pairs (32 and 8 bits)' % (inst, sum(len(v) for v in VEC.values())))
+        else:
+            R1.ok(inst, nontrivial=False)
+
 
 def size_table_rule(R, hlp, fns):
     """Every `tab_size_int[K]` of the simplifier: K must be the width of something known to be a constant (dominating isinstance(.., ExprInt) on the
@@ -498,7 +555,7 @@ MUTANTS = [
     ('merge-type-unguarded', 'miasmx/expression/expression_helper.py', "        out_type = tab_size_int.get(max_size)\n        if out_type is None:", "        out_type = tab_size_int[max_size]\n        if out_type is None:", 'C05.D5'),
     ('fold-shift-width', 'miasmx/expression/expression_helper.py', "                if op in op_assoc and i1.get_size() != i2.get_size():", "                if i1.get_size() != i2.get_size():", 'C05.D4'),
     ('slice-mem-noseg', 'miasmx/expression/expression_helper.py', "e = ExprMem(e.arg.arg, size = e.stop, segm = e.arg.segm)", "e = ExprMem(e.arg.arg, size = e.stop)", 'C05.D4'),
-    ('shift-fold-unbounded', 'miasmx/expression/expression_helper.py', "                elif op in ['>>', '<<'] and i2.arg >= i1.get_size():\n                    # every bit is shifted out (do not build the huge\n                    # intermediate integer)\n                    o = 0\n", "", 'C05.D4'),
+    ('shift-fold-unbounded', 'miasmx/expression/expression_helper.py', "                elif op in ['>>', '<<'] and i2.arg >= i1.get_size():\n                    # every bit is shifted out (do not build the huge\n                    # intermediate integer)\n                    o = 0\n", "", 'C05.D1'),
     ('mask-shift-nonstrict', 'miasmx/expression/expression_helper.py', "2**args[1].arg > args[0].args[1].arg", "2**args[1].arg >= args[0].args[1].arg", 'C05.D4'),
     ('slice-slice-base', 'miasmx/expression/expression_helper.py', "new_e = ExprSlice(e.arg.arg, e.start + e.arg.start, e.start + e.arg.start + (e.stop - e.start))", "new_e = ExprSlice(e.arg.arg, e.start + e.arg.start, e.arg.start + (e.stop - e.start))", 'C05.D4'),
     ('slice-compose-rebase', 'miasmx/expression/expression_helper.py', "new_e = a[0][e.start-a[1]:e.stop-a[1]]", "new_e = a[0][e.start:e.stop-a[1]]", 'C05.D4'),
